@@ -147,7 +147,10 @@ def replay_counterexample(pid, h, r):
         msgs = json.loads(body[body.find("["):])
     except Exception:
         res["note"] = "trace run produced no parseable output (rc=%s)" % rc; return res
-    refusal = h.expect.startswith("panic:") and any("refusal" == f.get("property") for f in (r.get("failed") or []))
+    # refusal harness (`@expect panic:<regex>`): a counterexample is either "the call can return" (AFTER cover reachable) or a panic
+    # other than the expected refusal (e.g. the marker that stands for "started computing")
+    refusal = h.expect.startswith("panic:")
+    rx_expected = re.compile(h.expect[6:]) if refusal else None
     vals_list = []; seen = set(); which = []
     for m in msgs:
         if isinstance(m, dict) and "result" in m:
@@ -156,7 +159,9 @@ def replay_counterexample(pid, h, r):
                 cls = p.get("property", "").rsplit(".", 2)
                 cls = cls[1] if len(cls) == 3 else ""
                 if refusal:
-                    if not (cls == "cover" and p.get("description", "").startswith("AFTER")): continue
+                    after = (cls == "cover" and p.get("description", "").startswith("AFTER"))
+                    unexpected = (cls != "cover" and not rx_expected.search(p.get("description", "")))
+                    if not (after or unexpected): continue
                 elif cls == "cover": continue
                 vals = extract_vals(p.get("trace", []))
                 key = json.dumps(vals)
@@ -192,11 +197,23 @@ def replay_counterexample(pid, h, r):
         res["note"] = "native playback build/run failed (rc=%s), see %s" % (rc, os.path.join(rundir, "playback_dev.log")); return res
     out_of_vals = [p for p in panics if "concrete_playback.rs" in p[0] or "Not enough det vals" in p[1]]
     if refusal:
-        # the harness expects a refusal (panic): the violation is reproduced when the native run RETURNS normally
-        res["reproduced"] = len(failed) < len(vals_list)
-        res["note"] = "refusal harness: native run returned without panicking" if res["reproduced"] else "native run refuses (panics) as expected"
+        # the harness expects a refusal (a panic matching the regex): the violation is reproduced when, on the solver's inputs, the
+        # native run of the real code does NOT refuse that way -- it returns normally or panics with another message
+        refused = [p for p in panics if rx_expected.search(p[1])]
+        res["reproduced"] = len(refused) < len(vals_list) and not out_of_vals
+        res["note"] = "refusal harness: native run did not refuse (returned or panicked otherwise)" if res["reproduced"] else "native run refuses (panics) as expected"
         return res
     res["reproduced"] = len(failed) > 0 and len(out_of_vals) < len(failed)
+    tries = 1
+    while not res["reproduced"] and not out_of_vals and tries < getattr(h, "replays", 1):
+        # the code under test draws fresh entropy natively (an arbitrary-bytes stub in the model): the same inputs are replayed again;
+        # ONE failing native run of the real code reproduces the violation
+        ran, failed, panics, rc = run_native(modfile, src, "kani_concrete_playback_" + h.name + "_", False, os.path.join(rundir, "playback_dev.log"))
+        out_of_vals = [p for p in panics if "concrete_playback.rs" in p[0] or "Not enough det vals" in p[1]]
+        tries += 1
+        if ran and len(failed) > 0 and not out_of_vals:
+            res["reproduced"] = True
+            res["dev"] = {"ran": ran, "failed_tests": len(failed), "panic": (panics[0][0] + " " + panics[0][1])[:300] if panics else "", "native_runs": tries}
     if res["reproduced"]:
         ran2, failed2, panics2, rc2 = run_native(modfile, src, "kani_concrete_playback_" + h.name + "_", True, os.path.join(rundir, "playback_release.log"))
         res["release"] = {"ran": ran2, "failed_tests": len(failed2), "panic": (panics2[0][0] + " " + panics2[0][1])[:300] if panics2 else ""}
